@@ -146,6 +146,12 @@ def work(item):
                 plan.append((fn, kinds, base))
                 plan.append((fn, kinds, tuple(v) if isinstance(base, tuple) else v))
                 st.cls("neighbour_pairs")
+    # late repeats: a few calls of every function once more at the very end of the stream - after every result object of the stream has been
+    # overwritten by its owner (the Java harness scribbles over what it gets), so a result that aliased internal state shows here
+    for fn in sorted(byfn):
+        for kinds, args in rng.sample(byfn[fn], min(len(byfn[fn]), 6)):
+            plan.append((fn, kinds, args))
+            st.cls("late_repeats")
     lines = [calls.line(fn, k, a) for fn, k, a in plan]
     out_c, rc, err = calls.run(exe, "simple", lines, sdir, tag + "_c")
     cf = os.path.join(sdir, "calls_%s_c.txt" % tag)
